@@ -824,16 +824,6 @@ theorem asciiRep_syntax (rep : Nat → Bool) (ha : AsciiRep rep) : SyntaxRep rep
         · omega
         · simp at h
 
-/-- the checker accepts the name productions of the regenerated table (and the ASCII-only ones) -/
-def checkedProductions : List String :=
-  ["S", "IDENT", "DIMENSION", "PERCENTAGE", "NUMBER", "HASH", "ATKEYWORD", "INCLUDES", "DASHMATCH", "PREFIXMATCH",
-   "SUFFIXMATCH", "SUBSTRINGMATCH", "CDO", "CDC"]
-
-theorem productions_checked : ∀ p ∈ productions, p.1 ∈ checkedProductions → firstPres p.2 = true := by decide
-
-theorem kept_split : ∀ n ∈ keptProductions, n ∈ checkedProductions ∨ n = "STRING" ∨ n = "INVALID" ∨ n = "COMMENT" ∨
-    n = "URI" ∨ n = "UNICODE-RANGE" := by decide
-
 /-- T8.4c `escapecss_keeps_first_match_partial`: for every production of the regenerated table except FUNCTION and
 CHAR — S, URI, UNICODE-RANGE, IDENT, DIMENSION, PERCENTAGE, NUMBER, HASH, COMMENT, STRING, INVALID, ATKEYWORD and the
 fixed lexemes — every target encoding that can represent ASCII, and every guarded text `s` (the text from the
@@ -850,18 +840,23 @@ theorem escapecss_keeps_first_match_partial (rep : Nat → Bool) (ha : AsciiRep 
     ∀ p ∈ productions, p.1 ∈ keptProductions → ∀ s : List Nat, guard rep s = true → (∀ c ∈ s, c ≤ maxUnicode) →
       p.2.first (escape rep s) = (p.2.first s).map (elen rep s) := by
   intro p hp hk s hg hm
-  have hS : ∀ p ∈ productions, p.1 = "STRING" → p.2 = reSTRING := by decide
-  have hV : ∀ p ∈ productions, p.1 = "INVALID" → p.2 = reINVALID := by decide
-  have hC : ∀ p ∈ productions, p.1 = "COMMENT" → p.2 = Gen.C05.reCOMMENT := by decide
-  have hU : ∀ p ∈ productions, p.1 = "URI" → p.2 = Gen.C05.reURI := by decide
-  have hR : ∀ p ∈ productions, p.1 = "UNICODE-RANGE" → p.2 = Gen.C05.reUNICODE_RANGE := by decide
-  rcases kept_split p.1 hk with h | h | h | h | h | h
-  · exact firstPres_sound rep ha p.2 (productions_checked p hp h) s ⟨hg, hm⟩
-  · rw [hS p hp h]; exact string_firstPres rep ha s ⟨hg, hm⟩
-  · rw [hV p hp h]; exact invalid_firstPres rep ha s ⟨hg, hm⟩
-  · rw [hC p hp h]; exact comment_firstPres rep ha s ⟨hg, hm⟩
-  · rw [hU p hp h]; exact uri_firstPres rep ha s ⟨hg, hm⟩
-  · rw [hR p hp h]; exact unicodeRange_firstPres rep ha s ⟨hg, hm⟩
+  have hne : ∀ n ∈ keptProductions, n ≠ "FUNCTION" ∧ n ≠ "CHAR" := by decide
+  exact productions_firstPres rep ha p hp (hne p.1 hk).1 (hne p.1 hk).2 s ⟨hg, hm⟩
+
+/-- T8.4c `escapecss_keeps_token_type_partial`: the production scan of the tokenizer (`tokenize2.py:174-202`: the
+productions in order, `pattern.match`, IDENT skipped in front of `(` unless it is `and`, the unterminated comment of
+full-sheet mode) on the escaped text answers with the SAME production and the mapped length — the token that starts at
+`pos` has the same type and the same (escaped) source on both texts; in full-sheet mode an unterminated comment is
+completed on both. For every guarded text from `pos` on, both modes, comments on or off.
+
+`_partial` for the same reason as above (guard "after any backslash"). What the tokenizer does with the hit afterwards
+— the full-sheet completions of INVALID / `url(` (`complete`), the value and the at-keyword symbol (`valueOf`; values:
+T8.4b), line and column — is not part of this statement; the main loop as a whole is compared differentially
+(harness part E) and by the reparse oracle. -/
+theorem escapecss_keeps_token_type_partial (rep : Nat → Bool) (ha : AsciiRep rep) (full doC : Bool) (s : List Nat)
+    (hg : guard rep s = true) (hm : ∀ c ∈ s, c ≤ maxUnicode) :
+    Tok.scan full doC (escape rep s) productions = mapScan rep s (Tok.scan full doC s productions) :=
+  scan_escape rep ha full doC s ⟨hg, hm⟩
 
 /-- FUNCTION is IDENT followed by `(` (`tokenize2.py:196-202` skips an IDENT that is directly followed by `(`): it is
 kept where the identifier in front of the parenthesis is, and absent where there is no identifier -/
@@ -966,6 +961,9 @@ example : guard repAscii [0x5C, 0xE4, 0x3B] = false ∧ reIDENT.first [0x5C, 0xE
 /-- `url(ä)x`: URI takes 6; escaped `url(\E4 )x`: 9 -/
 example : Gen.C05.reURI.first [0x75, 0x72, 0x6C, 0x28, 0xE4, 0x29, 0x78] = some 6 ∧
     Gen.C05.reURI.first (escape repAscii [0x75, 0x72, 0x6C, 0x28, 0xE4, 0x29, 0x78]) = some 9 := by decide
+/-- `ä(1)`: IDENT is skipped, FUNCTION hits with 2 characters; escaped `\E4 (1)`: FUNCTION with 5 -/
+example : Tok.scan false true [0xE4, 0x28, 0x31, 0x29] productions = .hit "FUNCTION" 2 ∧
+    Tok.scan false true (escape repAscii [0xE4, 0x28, 0x31, 0x29]) productions = .hit "FUNCTION" 5 := by decide
 /-- a sub-pattern is not kept although URI is: `{U}` (`u|\\0{0,4}(55|75)…`) does not match `ա` (U+0561 is fine, U+0550
 is not) but matches the head `\55` of its escape `\550 ` -/
 example : escape repAscii [0x550] = [0x5C, 0x35, 0x35, 0x30, 0x20] ∧
